@@ -58,6 +58,8 @@ fn main() {
         "C08" => dgh::c08::run(&tier, seed),
         "C16" => dgh::c16::run(&tier, seed),
         "C10" => dgh::c10::run(&tier, seed),
+        "C09" => dgh::c09::run_c09(&tier, seed),
+        "C11" => dgh::c09::run_c11(&tier, seed),
         _ => {
           eprintln!("unknown property {}", prop);
           std::process::exit(2)
